@@ -37,6 +37,11 @@ Proof.
   rewrite pool_run_enf; [reflexivity|]. intros p w. apply pool_enforce_from_enf.
 Qed.
 
+(* whatever `_errors` holds when the call starts - not only what earlier calls of the model could have left there -
+   the verdict is that of a fresh pool with the same enforcers *)
+Theorem pool_stateless_any_state p v : snd (pool_enforce p v) = snd (pool_enforce (fresh_pool (p_enf p)) v).
+Proof. apply pool_enforce_only_enf. reflexivity. Qed.
+
 (* accept iff every enforcer's rule holds *)
 Lemma capture_ok es v : forall errs,
   (forall e, In e es -> exists b, enf_rule e v = Ok b) ->
@@ -94,6 +99,10 @@ Qed.
 Lemma param_set_verdict p v : snd (param_set p v) = snd (pool_enforce (pm_pool p) v).
 Proof. unfold param_set. destruct (pool_enforce (pm_pool p) v) as [pl [[]|e]]; reflexivity. Qed.
 
+Theorem param_stateless_any_state p v :
+  snd (param_set p v) = snd (param_set {| pm_pool := fresh_pool (p_enf (pm_pool p)); pm_val := PNone |} v).
+Proof. rewrite !param_set_verdict. apply pool_enforce_only_enf. reflexivity. Qed.
+
 Theorem param_stateless : ParamStateless param_set.
 Proof.
   intros es hist v. rewrite !param_set_verdict. apply pool_enforce_only_enf. rewrite param_run_enf. reflexivity.
@@ -132,7 +141,7 @@ Proof.
   destruct (fold_res F0 d s0) as [[vals' oo]|e] eqn:E; [|reflexivity].
   assert (X : fst (vals', oo) = PDict d).
   { apply (fold_res_inv (fun s => fst s = PDict d) F0) with (l := d) (s := s0); [|reflexivity|exact E].
-    intros [v1 o1] [param rules] [v2 o2] Hs Hstep. simpl in Hs. subst v1. unfold F0 in Hstep.
+    intros [v1 o1] [param rules] [v2 o2] Hs Hstep. simpl in Hs. subst v1. unfold F0, iv_step in Hstep.
     repeat match type of Hstep with
     | bind ?m _ = Ok _ => let r := fresh "r" in destruct m as [r|] eqn:?; cbn [bind] in Hstep; [|discriminate]
     | (if ?c then _ else _) = Ok _ => destruct c eqn:?
